@@ -4,3 +4,5 @@ from contracts import py_cells as PC
 
 def build(run):
     PC.supercell_lattice(run)
+    PC.simple_supercell_replication(run)
+    PC.trimmed_cell_reorder(run)
